@@ -365,6 +365,17 @@ NEEDS = {
             'extract of zero_extend',
     'C17h': 'FPShortSort keyed on eb + sb: (_ FloatingPoint 6 10)',
     # seventh wave
+    'C18i': 'hierarchical resume position taken from EVERY result (also '
+            'aborted ones ahead of the accepted node): -j 1, more candidates '
+            'after an accepted node than fit into the pool pipe, a '
+            'non-monotone command, different check durations',
+    'C03i': 'untimed communicate() after the kill at the time limit: a '
+            'wrapper command whose blocked child inherited the pipes (no CPU '
+            'use), a candidate that runs into --timeout',
+    'C13i': 'hierarchical main loop prefers a late success of an earlier '
+            'node after the abort signal and adopts it without '
+            're-duplication: two successes of one sweep, the later node '
+            'first, -j >= 2, a sharing simplification',
     'C05i': 'write_smtlib_to_file keeps the smaller file: an accepted step '
             'whose rendering is larger than the previous output (implication '
             'elimination, let substitution) is adopted but not written',
@@ -385,7 +396,7 @@ ALSO = {'C02c': ['C13'], 'C02d': ['C14'], 'C06d': ['C02'], 'C01c': ['C07'], 'C11
         'C10g': ['C01'], 'C10h': ['C04'], 'C18h': ['C06'],
         'C04h': ['C10'], 'C06h': ['C18'], 'C15h': ['C12'], 'C12h': ['C13'],
         'C11g': ['C12'], 'C17g': ['C16'], 'C16h': ['C15'],
-        'C01i': ['C09']}
+        'C01i': ['C09'], 'C13i': ['C05'], 'C03i': ['C10'], 'C18i': ['C05', 'C02']}
 
 
 def sh(cmd, timeout=7200):
